@@ -170,6 +170,7 @@ import json, os, subprocess, tempfile
 
 def main():
     include, outdir = sys.argv[1], sys.argv[2]
+    os.makedirs(outdir, exist_ok=True)
     summary = {'functions': [], 'errors': {}}
     text = None
     with tempfile.TemporaryDirectory(dir=outdir) as tmp:
